@@ -1304,6 +1304,18 @@ type c03Step struct {
 	key  model.Key
 	val  any  // value as delivered (may be an invalid variant in C05)
 	ok   bool // val passes validation (always true for deletes)
+	// redeliver: the key's current value (valid or not) is sent again unchanged, with the SAME
+	// revision, as a Typha snapshot re-send / resync does; newType: sent as KVNew instead of
+	// KVUpdated.
+	redeliver bool
+	newType   bool
+}
+
+// c03RawVal is what the syncer currently holds for a key (valid or not).
+type c03RawVal struct {
+	val any
+	ok  bool
+	rev string
 }
 
 // c03Hist owns the case: world, datastore models and the generated history log.
@@ -1320,13 +1332,18 @@ type c03Hist struct {
 	version int
 	// C05 only: probability knob and invalid-value generator.
 	invalidGen func(h *c03Hist, key model.Key) (any, string)
+	// rawVal: current raw value and revision per key (for same-revision redelivery).
+	rawVal map[string]c03RawVal
+	revSeq int
 	// counters
-	invalidAfterValid bool
-	nInvalid          int
+	invalidAfterValid  bool
+	nInvalid           int
+	invalidRedelivered int // redeliveries of an invalid current value with unchanged revision
+	validRedelivered   int
 }
 
 func c03NewHist(t *rapid.T) *c03Hist {
-	return &c03Hist{t: t, world: c03GenWorld(t), valid: c03NewStore(), raw: map[string]bool{}}
+	return &c03Hist{t: t, world: c03GenWorld(t), valid: c03NewStore(), raw: map[string]bool{}, rawVal: map[string]c03RawVal{}}
 }
 
 func (h *c03Hist) nextVersion() int {
@@ -1404,14 +1421,33 @@ func (h *c03Hist) genStep(weights []string, pInvalid int) c03Step {
 		}
 		k := keys[rapid.IntRange(0, len(keys)-1).Draw(t, "delKeyIdx")]
 		return c03Step{kind: "D" + c03KindLetter(k), desc: "delete " + c03KeyString(k), key: k, val: nil, ok: true}
-	case "redeliver":
-		keys := h.valid.presentKeys()
+	case "redeliver", "reinv":
+		// "reinv" prefers keys whose current value is invalid.
+		keys := h.rawPresentKeys()
+		if op == "reinv" {
+			var inv []model.Key
+			for _, k := range keys {
+				if !h.rawVal[c03KeyString(k)].ok {
+					inv = append(inv, k)
+				}
+			}
+			if len(inv) > 0 {
+				keys = inv
+			}
+		}
 		if len(keys) == 0 {
 			op = "pol"
 			break
 		}
 		k := keys[rapid.IntRange(0, len(keys)-1).Draw(t, "redeliverKeyIdx")]
-		return c03Step{kind: "R" + c03KindLetter(k), desc: "redeliver " + c03KeyString(k), key: k, val: h.valid.get(k), ok: true}
+		rv := h.rawVal[c03KeyString(k)]
+		what := "valid"
+		if !rv.ok {
+			what = "INVALID"
+		}
+		newType := rapid.IntRange(0, 3).Draw(t, "redeliverAsNew") == 0
+		return c03Step{kind: "R" + c03KindLetter(k), desc: fmt.Sprintf("redeliver %s (current %s value, same revision %s, asNew=%v)", c03KeyString(k), what, rv.rev, newType),
+			key: k, val: rv.val, ok: rv.ok, redeliver: true, newType: newType}
 	case "move":
 		// Change only tier and/or order of an existing policy (tier move / re-order).
 		pks := h.valid.sortedPolKeys()
@@ -1497,28 +1533,46 @@ func (h *c03Hist) record(s c03Step) (a api.Update, b *api.Update) {
 	ks := c03KeyString(s.key)
 	rawHad := h.raw[ks]
 	validHad := h.valid.has(s.key)
+	// Every KV version gets its own non-empty revision; a redelivery re-uses the current one.
+	rev := h.rawVal[ks].rev
+	if !s.redeliver {
+		h.revSeq++
+		rev = fmt.Sprintf("%d", 1000+h.revSeq)
+	}
 	mk := func(val any, had bool) api.Update {
 		ut := api.UpdateTypeKVNew
 		if val == nil {
 			ut = api.UpdateTypeKVDeleted
-		} else if had {
+		} else if had && !s.newType {
 			ut = api.UpdateTypeKVUpdated
 		}
-		return api.Update{KVPair: model.KVPair{Key: s.key, Value: val}, UpdateType: ut}
+		return api.Update{KVPair: model.KVPair{Key: s.key, Value: val, Revision: rev}, UpdateType: ut}
 	}
 	a = mk(s.val, rawHad)
 	switch {
+	case s.redeliver:
+		// Nothing changes in either model.  The "invalid means absent" graph sees the valid
+		// value again, and no event at all for an invalid one.
+		if s.ok {
+			u := mk(s.val, validHad)
+			b = &u
+			h.validRedelivered++
+		} else {
+			h.invalidRedelivered++
+		}
 	case s.val == nil:
 		if validHad {
 			u := mk(nil, true)
 			b = &u
 		}
 		delete(h.raw, ks)
+		delete(h.rawVal, ks)
 		h.valid.apply(s.key, nil)
 	case s.ok:
 		u := mk(s.val, validHad)
 		b = &u
 		h.raw[ks] = true
+		h.rawVal[ks] = c03RawVal{val: s.val, ok: true, rev: rev}
 		h.valid.apply(s.key, s.val)
 	default: // invalid value
 		h.nInvalid++
@@ -1528,6 +1582,7 @@ func (h *c03Hist) record(s c03Step) (a api.Update, b *api.Update) {
 			b = &u
 		}
 		h.raw[ks] = true
+		h.rawVal[ks] = c03RawVal{val: s.val, ok: false, rev: rev}
 		h.valid.apply(s.key, nil)
 	}
 	h.log = append(h.log, s.desc)
